@@ -496,4 +496,5 @@ func c17(p *model.Prog, r *report.Result) {
 	c17r7(p, r)
 	c17r8(p, r, "C17.R8")
 	c17r9(p, r)
+	c17r10(p, r)
 }
